@@ -1,9 +1,9 @@
 """C18 tenant quotas hold under every interleaving of writers.
 Persist.tla / MC_Persist.tla (Mode "conc") / Persist_Trace.tla, harness bin persist mode=conc and mode=free."""
-from .persist_common import gen, TRACE, WORKERS, JOBS, corrupt_conc, cap, harness_env
+from .persist_common import gen, TRACE, WORKERS, JOBS, corrupt_conc, cap, harness_env, SIBLINGS
 
 C18 = "QuotaHolds RefusedLeavesNothing UsageExact Atomic"
-CONC = dict(mode="conc", constraint="", maxhist=99)
+CONC = dict(mode="conc", constraint="", maxhist=99, tenants=SIBLINGS)
 BOTH = '{"n", "e"}'
 
 
@@ -40,7 +40,9 @@ def run(ctx):
                              "walks3", simulate=(2000, 40), workers=4)
     scripts += cap(ctx, three, 120 if q else 3000)
     scripts = [[st for st in s if st["op"] != "Recover"] for s in scripts]
-    ctx.assume("one tenant, quota 1-2, 2-3 threads, each creating one node (or relationship) with its own id",
+    ctx.assume("quota 1-2, 2-3 threads, each creating one node (or relationship) with its own id for tenant t1; two more registered "
+               "tenants (t10, t1z: ids that sort directly before / after t1's keys) each hold one node and one relationship created "
+               "before the writers start; their scans and counters are judged at quiescence and each is recovered once at the end",
                "the counters are judged when nothing is in flight (after every call returned) and after each of two recoveries on the "
                "same manager; stored ids are judged after every scheduled step; a refusal is never judged wrong by itself (the statement "
                "does not require admission), it must only leave nothing in storage or the log",
